@@ -158,8 +158,9 @@ def render(spec):
 
 
 class Ref:
-    def __init__(self, spec):
+    def __init__(self, spec, prefix=""):
         self.spec = spec
+        self.prefix = prefix
         self.classes = SHAPES[spec["shape"]]
         self.bases = dict(self.classes)
         self.mopt = {c: o for (c, _), o in zip(self.classes, spec["members"])}
@@ -195,7 +196,7 @@ class Ref:
             r = self.eff(k) if k is not None else (("TRUE", frozenset()) if self.object_provides else None)
             self._eff[c] = r
             return r
-        pres, posts = cnames(c, opt)
+        pres, posts = cnames(c, opt, self.prefix)
         bases = self.bases[c]
         base_effs = [self.eff(b) for b in bases if self.provides(b)]
         if not bases and self.object_provides:
@@ -400,15 +401,157 @@ def check_spec(spec, acc):
             core.unload_source(ns)
 
 
+# ---------------------------------------------------------------------------------------------
+# properties with three accessors, each with its own contract placement (cross-accessor contamination)
+
+ACC = [("g", "getter"), ("s", "setter"), ("d", "deleter")]
+
+
+def prop3_specs(tier):
+    out = []
+    opts = [(0, 0), (1, 1)] if tier == "quick" else [(0, 0), (1, 0), (0, 1), (1, 1)]
+    per_class = [None] + [list(t) for t in itertools.product(opts, repeat=3)]
+    for shape in ("single", "chain2") if tier == "quick" else ("single", "chain2", "two_bases", "chain3"):
+        classes = SHAPES[shape]
+        if len(classes) == 3 and tier == "thorough":
+            pc = [None] + [list(t) for t in itertools.product([(0, 0), (1, 1)], repeat=3)]
+        else:
+            pc = per_class
+        for combo in itertools.product(pc, repeat=len(classes)):
+            if combo[0] is None:
+                continue
+            out.append({"family": "prop3", "shape": shape, "props": list(combo)})
+    return out
+
+
+def render_prop3(spec):
+    classes = SHAPES[spec["shape"]]
+    w = [PRELUDE]
+    for (cls, bases), popt in zip(classes, spec["props"]):
+        body = []
+        if not bases:
+            body += ["def __init__(self):", "    self.a = 1"]
+        if popt is not None:
+            for (tag, _), opt in zip(ACC, popt):
+                pres, posts = cnames(cls, tuple(opt), tag)
+                arg = "x" if tag == "s" else "self"
+                for n in pres:
+                    w.append("class E_{0}(Exception): pass\ndef {0}({1}):\n    LOG.append(('pre', '{0}'))\n    return _truth('{0}')\n".format(n, arg))
+                for n in posts:
+                    w.append("class E_{0}(Exception): pass\ndef {0}(result):\n    LOG.append(('post', '{0}'))\n    return _truth('{0}')\n".format(n))
+            for (tag, _), opt in zip(ACC, popt):
+                pres, posts = cnames(cls, tuple(opt), tag)
+                decos = ["@icontract.require({0}, error=E_{0})".format(n) for n in reversed(pres)] + \
+                        ["@icontract.ensure({0}, error=E_{0})".format(n) for n in reversed(posts)]
+                head = {"g": ["@property"], "s": ["@m.setter"], "d": ["@m.deleter"]}[tag]
+                sig = {"g": "def m(self):", "s": "def m(self, x):", "d": "def m(self):"}[tag]
+                body += head + decos + [sig, "    LOG.append(('body', '{}.{}'))".format(cls, tag)] + (["    return 1"] if tag == "g" else [])
+        if not body:
+            body = ["pass"]
+        w.append("class {}({}):\n".format(cls, ", ".join(bases) if bases else "icontract.DBC") + "".join("    " + ln + "\n" for ln in body))
+    return "".join(w)
+
+
+def check_prop3(spec, acc):
+    src = render_prop3(spec)
+    key0 = json.dumps(spec, sort_keys=True)
+    classes = SHAPES[spec["shape"]]
+    refs = {}
+    for ai, (tag, _) in enumerate(ACC):
+        sub = {"shape": spec["shape"], "kind": {"g": "pget", "s": "pset", "d": "pdel"}[tag], "name": "m",
+               "members": [None if p is None else tuple(p[ai]) for p in spec["props"]], "invs": [0] * len(classes), "inits": [None] * len(classes)}
+        refs[tag] = Ref(sub, prefix=tag)
+    must = [c for r in refs.values() for c, v in r.def_error.items() if v == "must"]
+    may = [c for r in refs.values() for c, v in r.def_error.items() if v == "may"]
+    f0 = {"family": "prop3", "shape": spec["shape"], "props": "/".join("-" if p is None else "".join("{}{}".format(*o) for o in p) for p in spec["props"])}
+    ns, def_exc = None, None
+    try:
+        ns = core.fresh_ctx_run(core.load_source, src, "c04p")
+    except Exception as e:
+        def_exc = e
+    try:
+        if must or may or def_exc is not None:
+            acc.case(("def", key0), True, 1, "def:" + (type(def_exc).__name__ if def_exc else "ok"))
+            if def_exc is None and must:
+                acc.violation(core.Violation(PROP, "weakening_not_rejected", dict(f0, on=must[0]), "accessor adds preconditions although its ancestors declare none",
+                                             spec={"spec": spec}, script=src))
+                return
+            if def_exc is not None:
+                if not (must or may) or type(def_exc) is not TypeError:
+                    acc.violation(core.Violation(PROP, "unexpected_class_creation_error", dict(f0, exc=type(def_exc).__name__), repr(def_exc),
+                                                 spec={"spec": spec}, script=src))
+                return
+        import mc.fam as fam
+        for cls, _ in classes:
+            K = ns[cls]
+            ns["T"].clear()
+            obj = core.fresh_ctx_run(K)
+            for tag, accname in ACC:
+                ref = refs[tag]
+                sel = ref.selected(cls)
+                if sel is None:
+                    continue
+                groups, posts = ref.eff(cls)
+                own_names = sorted({n for k in ref.mro[cls] for n in cnames(k, ref.mopt[k], tag)[0]}) + sorted(posts)
+                for truth in fam.limited_truths(own_names, max_full=5, max_falsy=2):
+                    ns["T"].clear()
+                    ns["T"].update(truth)
+                    del ns["LOG"][:]
+                    exc = None
+                    try:
+                        if tag == "g":
+                            core.fresh_ctx_run(lambda: obj.m)
+                        elif tag == "s":
+                            core.fresh_ctx_run(setattr, obj, "m", [0])
+                        else:
+                            core.fresh_ctx_run(delattr, obj, "m")
+                    except Exception as e:
+                        exc = e
+                    log = list(ns["LOG"])
+                    acc.case((key0, cls, tag, tuple(sorted(truth.items()))), bool(own_names), len(log), type(exc).__name__ if exc else "ok")
+                    feats = dict(f0, on=cls, accessor=accname)
+                    evaluated = [e[1] for e in log if e[0] in ("pre", "post")]
+                    foreign = [n for n in evaluated if not n.startswith(tag + "p_") and not n.startswith(tag + "q_")]
+                    body = [e[1] for e in log if e[0] == "body"]
+                    want = accepts(groups, truth)
+                    bad = None
+                    if foreign:
+                        bad = ("accessor_evaluates_contracts_of_another_accessor", "{} of {} evaluated {}".format(accname, cls, foreign))
+                    elif want != bool(body):
+                        bad = ("precondition_verdict", "{} of {}: effective precondition {} = {} but body {}".format(accname, cls, groups, want, body))
+                    elif body and body != ["{}.{}".format(sel, tag)]:
+                        bad = ("not_the_member_python_mro_selects", "{} expected {}.{}".format(body, sel, tag))
+                    elif want:
+                        falsy = [n for n in sorted(posts) if not truth[n]]
+                        got_posts = [e[1] for e in log if e[0] == "post"]
+                        if not falsy and (set(got_posts) != set(posts) or exc is not None):
+                            bad = ("postcondition_set", "expected {} got {} exc={!r}".format(sorted(posts), got_posts, exc))
+                        elif falsy and (exc is None or type(exc).__name__[2:] not in falsy):
+                            bad = ("postcondition_violation_missed", "falsy {} outcome {!r}".format(falsy, exc))
+                    elif exc is None or not type(exc).__name__.startswith("E_" + tag + "p_"):
+                        bad = ("wrong_error", repr(exc))
+                    if bad:
+                        acc.violation(core.Violation(PROP, bad[0], feats, bad[1] + " falsy={} log={}".format([k for k, v in truth.items() if not v], log),
+                                                     spec={"spec": spec, "cls": cls, "accessor": tag, "truth": truth}, script=src))
+                        break
+        acc.sample({"spec": spec}, cap=1)
+    finally:
+        if ns is not None:
+            core.unload_source(ns)
+
+
 def work(chunk):
     acc = core.Acc()
     for spec in chunk:
-        check_spec(spec, acc)
+        if spec.get("family") == "prop3":
+            check_prop3(spec, acc)
+        else:
+            check_spec(spec, acc)
     return acc.result()
 
 
 def run(tier, t0):
-    sp = core.rotate(specs(tier))
+    sp = core.rotate(specs(tier) + prop3_specs(tier))
     tot = core.merge(core.pmap(work, sp))
     return core.finish(
         PROP, tier, tot, t0,
@@ -427,7 +570,7 @@ def run(tier, t0):
 def replay(path):
     data = json.load(open(path))["spec"]
     acc = core.Acc()
-    check_spec(data["spec"], acc)
+    (check_prop3 if data["spec"].get("family") == "prop3" else check_spec)(data["spec"], acc)
     for v in acc.violations[:5]:
         print("VIOLATION property={} replay={}".format(PROP, path))
         print(" ", v.symptom, v.detail[:400])
